@@ -1,16 +1,23 @@
 (* C04 correspondence run.
    case  L [state; genby; date] -> L [written file; spec decoder on the observation copy;
                                        spec decoder on the sample copy;
-                                       does the case satisfy the hypotheses of hdf5_conforms] *)
+                                       does the case satisfy the hypotheses of hdf5_conforms;
+                                       for every later generation (4th element: states of the
+                                       table loaded and written again): L [file; csr; csc]] *)
 From Coq Require Import List Bool ZArith.
 From BiomV Require Import Base.Tree Base.ListUtil Base.Matrix Model.Table Model.Sparse Model.Hdf5 Run.WireH5.
 Import ListNotations.
 
 Definition run (t : Tree) : Tree :=
   let st := tState (tnth t 0) in
-  let w := to_hdf5 st (tLZ (tnth t 1)) (tLZ (tnth t 2)) in
+  let later := L (map (fun t2 => match write_state t2 (tLZ (tnth t 1)) (tLZ (tnth t 2)) with
+                                  | ROk f2 => L [eResult eH5 (ROk f2); eOpt (fun m => L (map eBigs m)) (spec_decode_csr f2);
+                                                 eOpt (fun m => L (map eBigs m)) (spec_decode_csc f2)]
+                                  | RErr e => L [eErr e; L []; L []]
+                                  end) (tL (tnth t 3))) in
+  let w := write_state (tnth t 0) (tLZ (tnth t 1)) (tLZ (tnth t 2)) in
   match w with
   | ROk f => L [eResult eH5 w; eOpt (fun m => L (map eBigs m)) (spec_decode_csr f); eOpt (fun m => L (map eBigs m)) (spec_decode_csc f);
-                eB (in_domainb st (tLZ (tnth t 1)) (tLZ (tnth t 2)) && type_in_vocabb st)]
-  | RErr e => L [eErr e; L []; L []; I 0]
+                eB (in_domainb st (tLZ (tnth t 1)) (tLZ (tnth t 2)) && type_in_vocabb st); later]
+  | RErr e => L [eErr e; L []; L []; I 0; later]
   end.
